@@ -302,14 +302,15 @@ class ExtrudedPorousGeometry(ExtrudedGeometry):
             voxel_size (list): see Geometry.
 
         """
+        # NOTE: Multiply as floats; integer-typed maps (e.g. 8-bit) would wrap around.
         if isinstance(porosity, darsia.Image) and isinstance(depth, darsia.Image):
-            integrated_porosity = np.multiply(porosity.img, depth.img)
+            integrated_porosity = np.multiply(porosity.img, depth.img, dtype=float)
         elif isinstance(depth, darsia.Image):
-            integrated_porosity = np.multiply(porosity, depth.img)
+            integrated_porosity = np.multiply(porosity, depth.img, dtype=float)
         elif isinstance(porosity, darsia.Image):
-            integrated_porosity = np.multiply(porosity.img, depth)
+            integrated_porosity = np.multiply(porosity.img, depth, dtype=float)
         else:
-            integrated_porosity = np.multiply(porosity, depth)
+            integrated_porosity = np.multiply(porosity, depth, dtype=float)
         super().__init__(
             integrated_porosity, space_dim, num_voxels, dimensions, voxel_size
         )
